@@ -40,6 +40,10 @@ class Interp(LibMixin, CallMixin, StmtMixin, ExprMixin, InterpBase):
         if p.kind == "hostobj":
             v = VRef(self.fresh_ref(name))
             ctx.assume(z3.Select(st.typeof, Val.r(v)) >= HOST_CLASS_BASE)
+            if p.nullable:
+                isnone = ctx.fresh(name + "_isnone", B)
+                self._last_nullable = (isnone, v)
+                return z3.If(isnone, VNone, v)
             return v
         if p.kind == "int":
             return Val.VInt(ctx.fresh(name, I))
@@ -269,9 +273,11 @@ class Interp(LibMixin, CallMixin, StmtMixin, ExprMixin, InterpBase):
         old = self.st.snapshot()
         S_ = SpecCtx(self, c, bound, old)
         S_.at_call = True
+        S_.proving = True
         for cl in c.requires:
             self.ctx.oblige(self.obl_name("PRE", "%s/%s" % (anchor, cl.label)), "PRE", cl.fn(S_),
                             detail="precondition `%s` of %s" % (cl.label, c.key))
+        S_.proving = False
         mods = c.modifies(S_) if c.modifies else []
         # alternatives: normal return, or one of the declared signals
         conds = [z3.BoolVal(True)]
@@ -435,6 +441,7 @@ def verify_contract(index, table, contracts, c, axioms, timeout_ms=10000, max_pa
                     tag_props(nm, props)
                     ctx.oblige(nm, kind, goal, meta={"exit": exit_kind})
             return
+        S_.proving = True
         if exit_kind == "return":
             S_.result = value
             for cl in c.ensures:
